@@ -24,6 +24,7 @@ structure Waiter where
   entered : Nat              -- when the thread made the call
   nextPoll : Nat             -- virtual time of its next iteration
   extra : Nat := 0           -- additional IDLE_WAIT sleeps per iteration (start_consuming: one more)
+  consuming : Bool := false  -- a consuming loop (start_consuming, build_inbound_messages): it ends when the channel is closed
   blocked : Bool := false    -- inside a raising check, waiting for the connection lock (Connection.close())
   result : Option Outcome := none
 deriving DecidableEq, Repr
@@ -44,7 +45,7 @@ def idleWait : Nat := Gen.Const.idleWaitMs
 def pollTimeout : Nat := Gen.Const.pollTimeoutMs
 
 inductive Act
-  | enterWait (chan : Option Nat) (extra : Nat) (lock : Bool)
+  | enterWait (chan : Option Nat) (extra : Nat) (lock : Bool) (consuming : Bool := false)
                                 -- a thread starts waiting (first check immediately); `lock`: it took the
                                 -- connection lock before (only loops with one sleep per iteration do)
   | die                         -- the peer closes or resets the socket (environment)
@@ -105,9 +106,9 @@ def raisesFatal (c : C) (ch : Option Nat) : Bool :=
 def active (w : Waiter) : Bool := w.result.isNone && !w.blocked
 
 def step (t : T) : Act → Option T
-  | .enterWait ch k lock =>
+  | .enterWait ch k lock cons =>
     if chanOk t.c ch && (!lock || (t.lockHolder.isNone && k == 0)) then
-      some { t with waiters := t.waiters ++ [{ chan := ch, entered := t.now, nextPoll := t.now, extra := k }],
+      some { t with waiters := t.waiters ++ [{ chan := ch, entered := t.now, nextPoll := t.now, extra := k, consuming := cons }],
                     lockHolder := if lock then some t.waiters.length else t.lockHolder }
     else none
   | .die => if t.socketDead.isNone then some { t with socketDead := some t.now } else none
@@ -144,7 +145,12 @@ def step (t : T) : Act → Option T
     | none => none
   | .leave i =>
     match t.waiters[i]? with
-    | some w => if active w then some (finish t i w (.returned t.now) t.c) else none
+    | some w =>
+      -- a consuming loop that finds its channel closed looks at the connection's error list before it returns
+      -- (regenerated): once a failure is recorded it cannot end normally
+      if active w ∧ ¬ (w.consuming = true ∧ Gen.Transport.consumeLoopsCheckOnExit = true ∧ t.c.connErrs ≠ []) then
+        some (finish t i w (.returned t.now) t.c)
+      else none
     | none => none
   | .brokerReturn ch code =>
     if t.readerRunning then some { t with c := onReturn t.c ch code } else none
